@@ -28,6 +28,23 @@ class Ctx:
         self.helper_requests = []  # (relpath, impl header or None, fn name) found by the driver
         self.helpers = []
         self.helper_rewrites = []
+        self.lost = []           # obligations that could not even be stated on this tree (anchor gone): reported as unreached
+
+    # -- graceful degradation: an anchor that an edit removed costs the obligations attached to it, not the whole unit ---------
+    def _lose(self, key, props, texts, reason, body=True):
+        if body:
+            self.lost.append(dict(id=key + '::body', props=list(props), prose='body verifies', fn_key=key, reason=reason))
+        for txt in texts:
+            for m in re.finditer(r'//\s*@OBL\s+(\S+)\s+\[([^\]]*)\]\s*(.*)$', txt or '', re.M):
+                self.lost.append(dict(id=m.group(1), props=[x.strip() for x in m.group(2).split(',') if x.strip()], prose=m.group(3).strip(), fn_key=key, reason=reason))
+        self.note('%s: %s' % (key, reason))
+
+    def _soft_rewrites(self, e, rewrites):
+        for rw in rewrites:
+            try:
+                e.rewrite(*rw) if isinstance(rw, tuple) else e.rewrite(**rw)
+            except AnchorLost as err:
+                self.note('%s: adaptation rewrite not applicable on this tree (%s)' % (e.key, str(err)[-160:]))
 
     # -- plain items (struct / enum / const / type) -------------------------------------------------
     def item(self, rel, path, derives=True, pub_fields=True, rewrites=(), keep_attrs=False, extra_derive=()):
@@ -56,27 +73,38 @@ class Ctx:
             e = extract(self.repo, rel, path, key=key)
         except AnchorLost as err:
             if not optional:
-                raise
+                self._lose(key, props, [spec] + [i[2] for i in inserts], 'function not found in the source (%s)' % str(err)[-200:])
+                return '// ---- (not found) %s\n' % key
             self.note('function %s no longer exists in the source (%s): its obligations are dropped; the callers\' contracts still have to hold' % (key, err))
             return '// ---- (gone) %s\n' % key
         e.strip_docs()
         e.inner_attrs()
+        try:
+            e.sig_orig = norm(e.fn_parts()[0])
+        except AnchorLost:
+            e.sig_orig = None
         e.drop_log_macros()
         e.replace_macro('anyhow', 'Error::msg()')
         e.replace_macro('bail', 'return Err(Error::msg())')
-        for rw in rewrites:
-            e.rewrite(*rw) if isinstance(rw, tuple) else e.rewrite(**rw)
+        self._soft_rewrites(e, rewrites)
         for ins in inserts:
-            if len(ins) == 4 and ins[3] == 'before':
-                e.insert_before(*ins[:3])
-            else:
-                e.insert_after(*ins)
-        for tr in transforms:
-            tr(e)
-        if pub:
-            e.make_pub()
-        pre_contract = e.text
-        e.contract(ret=ret, spec=spec, body_prefix=body_prefix, sig_rewrites=sig_rewrites)
+            try:
+                if len(ins) == 4 and ins[3] == 'before':
+                    e.insert_before(*ins[:3], count=1)
+                else:
+                    e.insert_after(*ins[:3], count=1)
+            except AnchorLost as err:
+                self._lose(key, props, [ins[2]], 'the statement this obligation is attached to is gone or ambiguous (%s)' % str(err)[-200:], body=False)
+        try:
+            for tr in transforms:
+                tr(e)
+            if pub:
+                e.make_pub()
+            pre_contract = e.text
+            e.contract(ret=ret, spec=spec, body_prefix=body_prefix, sig_rewrites=sig_rewrites)
+        except AnchorLost as err:
+            self._lose(key, props, [spec] + [i[2] for i in inserts], 'the function no longer has the shape its contract is written for (%s)' % str(err)[-200:])
+            return '// ---- (shape changed) %s\n' % key
         self.extracted.append(e)
         self.fn_keys.append(key)
         # FNOBL marker goes at the end of the first line of the signature
@@ -97,7 +125,14 @@ class Ctx:
     # -- X10: statement / block lifting -----------------------------------------------------------------
     def lifted(self, rel, path, key, props, anchor, name, params, ret_ty='', ret=None, spec='', body_prefix='', rewrites=(),
                kind='stmt', is_async=False, transforms=(), tail='', inserts=(),
-               prose='lifted block verifies: no panic and every callee precondition holds'):
+               prose='lifted block verifies: no panic and every callee precondition holds', attrs=''):
+        try:
+            return self._lifted(rel, path, key, props, anchor, name, params, ret_ty, ret, spec, body_prefix, rewrites, kind, is_async, transforms, tail, inserts, prose, attrs)
+        except AnchorLost as err:
+            self._lose(key, props, [spec] + [i[2] for i in inserts], 'the statement / block this contract is attached to is gone or has another shape (%s)' % str(err)[-200:])
+            return '// ---- (anchor lost) %s\n' % key
+
+    def _lifted(self, rel, path, key, props, anchor, name, params, ret_ty, ret, spec, body_prefix, rewrites, kind, is_async, transforms, tail, inserts, prose, attrs):
         """extract the statement (kind='stmt': from `anchor` to the `;` closing it) or the block (kind='block': the
         `{...}` following `anchor`) out of fn `path` and wrap it as a function with the declared parameters"""
         e = extract(self.repo, rel, path, key=key)
@@ -146,8 +181,7 @@ class Ctx:
             body = '{\n        ' + t[i:j + 1] + '\n' + tail + '    }'
         e.log('X10', '%s at %r lifted into fn %s(%s)' % (kind, anchor, name, norm(params)))
         e.text = body
-        for rw in rewrites:
-            e.rewrite(*rw) if isinstance(rw, tuple) else e.rewrite(**rw)
+        self._soft_rewrites(e, rewrites)
         for tr in transforms:
             tr(e)
         for ins in inserts:
@@ -155,7 +189,10 @@ class Ctx:
             if optional and anc not in e.text:
                 self.note('%s: optional insertion anchor %r not present: the obligation attached to it does not apply' % (key, anc))
                 continue
-            e.insert_before(rule, anc, txt) if where == 'before' else e.insert_after(rule, anc, txt)
+            try:
+                e.insert_before(rule, anc, txt, count=1) if where == 'before' else e.insert_after(rule, anc, txt, count=1)
+            except AnchorLost as err:
+                self._lose(key, props, [txt], 'the statement this obligation is attached to is gone or ambiguous (%s)' % str(err)[-200:], body=False)
         body = e.text
         sig = 'pub %sfn %s(%s)' % ('async ' if is_async else '', name, params)
         if ret_ty:
@@ -167,9 +204,9 @@ class Ctx:
         self.fn_keys.append(key)
         first, nl, rest = e.text.partition('\n')
         marked = '%s // @FNOBL %s::body [%s] %s%s%s' % (first, key, ','.join(props), prose, nl, rest)
-        self.probe_fns[key] = dict(sig=e.sig_final, body=e.body_final, requires=_only_requires(spec), attrs='')
-        return ('// ---- extracted: %s :: %s (lines %d-%d, sha256 %s) -- LIFTED %s\n%s\n'
-                % (rel, path, e.span[0], e.span[1], e.sha256[:16], kind, marked))
+        self.probe_fns[key] = dict(sig=e.sig_final, body=e.body_final, requires=_only_requires(spec), attrs=attrs)
+        return ('// ---- extracted: %s :: %s (lines %d-%d, sha256 %s) -- LIFTED %s\n%s%s\n'
+                % (rel, path, e.span[0], e.span[1], e.sha256[:16], kind, attrs, marked))
 
     # -- helpers introduced by an edit (auto-included, no contract) -----------------------------------------
     def helpers_here(self):
@@ -188,6 +225,8 @@ class Ctx:
             e.replace_macro('anyhow', 'Error::msg()'); e.replace_macro('bail', 'return Err(Error::msg())')
             for rw in self.helper_rewrites:
                 e.rewrite(**dict(rw, optional=True))
+            for tr in getattr(self, 'helper_transforms', []):
+                tr(e)
             e.make_pub()
             pre = ''
             if kw in ('struct', 'enum'):
